@@ -38,7 +38,16 @@ func NewEnv(st *Stats, relax map[string]bool, seed uint64) *Env {
 }
 
 // SetWatchdog bounds the number of yields this party may execute (0: unbounded).
-func (e *Env) SetWatchdog(max uint64) { e.maxYields = max; e.yields = 0 }
+func (e *Env) SetWatchdog(max uint64) {
+	if e.sched != nil {
+		return // the scheduler's own bound applies to a multi-party run
+	}
+	e.maxYields = max
+	e.yields = 0
+}
+
+// InSched reports whether this party runs under a multi-party scheduler.
+func (e *Env) InSched() bool { return e.sched != nil }
 func (e *Env) Yields() uint64 {
 	if e.sched != nil {
 		return e.sched.yields
@@ -129,6 +138,9 @@ func libPerm(n int) []int {
 
 // Activate installs e as the party whose library yields are counted (single-party worlds).
 func Activate(e *Env) {
+	if e.sched != nil {
+		return // party of a multi-party run: the scheduler owns the hooks
+	}
 	activeEnv = e
 	activeSched = nil
 	setHook(libHook)
@@ -136,6 +148,9 @@ func Activate(e *Env) {
 }
 
 func Deactivate() {
+	if activeSched != nil && activeSched.running {
+		return
+	}
 	activeEnv = nil
 	activeSched = nil
 	setHook(nil)
